@@ -12,7 +12,7 @@ PROPS = {
                  "compared with tables re-typed from the specifications: all 2^32 codes for u32<->FourCC<->BoxType, "
                  "DataType, TrackType-from-FourCC and the 16.16 wrapper; all 2^16 packed language codes through the mdhd "
                  "codec and all 26^3 three-letter codes; all 2^16 (profile, compatibility) pairs; all u8 for AOT / "
-                 "frequency index / channel configuration; all 2^16 raw 8.8 values; all strings of length <= 4 over a "
+                 "frequency index / channel configuration; every raw 4-bit frequency index reference-encoded into an esds (the escape value 15 followed by each of the 13 table rates and 7 other rates, 5 object types) and decoded: the decoded index must be the raw one and be accepted exactly for 0..=12; all 2^16 raw 8.8 values; all strings of length <= 4 over a "
                  "40-symbol alphabet for the kind names plus a dictionary of ~110 real-world names of the same kinds (all to be rejected). Textual FourCC form: all 2^32 codes in thorough, every 61st "
                  "code plus every table code and its 32 single-bit neighbours in quick (the one non-exhaustive stratum). "
                  "distinct_nontrivial counts domain points that lie in a defining table, are a single-bit neighbour of a "
@@ -35,12 +35,12 @@ PROPS = {
                  "are checked after every call; histories with rejected calls are re-run without them and the outputs compared byte for byte. "
                  "Strata: bounded-exhaustive (1-2 tracks, 54-symbol alphabet size{0,1,2} x delta{0,1,timescale} x cts{0,5,-5} x sync, all "
                  "histories of length <= 2 quick / <= 3 thorough) and seeded random (1-5 tracks of all five media kinds, 0-400 samples, "
-                 "biased sizes/durations/offsets/timescales, four interleavings, lazily added tracks, codec-shaped sample payloads (ADTS headers, start codes, length prefixes), parameter sets partly in Annex B form, rejected write_sample AND rejected add_track calls interleaved). A case is non-trivial when some track "
+                 "biased sizes/durations/offsets/timescales, four interleavings, lazily added tracks, codec-shaped sample payloads (ADTS headers, start codes, length prefixes), parameter sets partly in Annex B form, rejected write_sample AND rejected add_track calls interleaved); stratum `beyond` (24 000 / 300 000 histories with the movie timescale near 2^32, track timescales 1-3 and durations near 2^32, i.e. converted durations beyond 64 bits): no panic, calls that returned an error are removed from the model and must have left no trace, the accepted samples must read back. A case is non-trivial when some track "
                  "has >= 2 samples; distinct = distinct abstract shape (per track: media kind, sample-count bucket, #distinct sizes, #zero "
                  "sizes, position of first non-zero offset, first sync / sync class, #chunk flushes, trailing partial chunk; #rejected calls)."),
         "assumptions": [
             "sequential model of the muxer API in harness/src/muxdrive.rs (a write is accepted iff its track id names a track added earlier)",
-            "histories whose converted track duration would not fit a 64-bit header field are outside the documented domain (they belong to C17)",
+            "histories whose converted track duration would not fit a 64-bit header field are re-drawn in the random stratum (C02's structure oracles cannot judge them); stratum `beyond` covers them with the sample-level oracles only",
             "both build profiles (overflow-checked and release) are exercised",
         ],
     },
@@ -178,7 +178,7 @@ PROPS = {
         "rule": ("reference-encoded movies with moov/udta/meta/ilst: every subset of the four items x handler mdir / other x placement (udta/meta, moov/meta, "
                  "udta without meta, no udta), payload lengths 0/1/255/65536/random, year as decimal text or 4-byte binary, multi-byte UTF-8 text, "
                  "0-3 unrelated items (arbitrary data types and contents, also header-only 8-byte items and raw non-`data` content; one such item placed first / in the middle / last for every tag subset) before/between/after, year text that is not a decimal number, meta with and without the version/flags word, hdlr first or "
-                 "last, plus movies without user data. Accessor results are compared with the encoded values. distinct = (subset, handler, placement, header "
+                 "last, one movie in eight with the QuickTime terminator (a 32-bit zero ending udta, half of those with the movie box last so that it ends the file), plus movies without user data. Accessor results are compared with the encoded values. distinct = (subset, handler, placement, header "
                  "form, hdlr position, #extra items, year encoding)."),
         "assumptions": [
             "data types of the four known items are those of the library's table (0, 1, 13, 21); unrelated items may carry any type",
@@ -196,7 +196,7 @@ PROPS = {
                  "gating optional fields (2^5 for tfhd, 2^6+cts for trun), optional children present/absent, list lengths 0/1/2/3/17 - is enumerated "
                  "exhaustively and each shape is filled with boundary-biased random field values (1200 draws per shape quick, 12 000 thorough); one draw "
                  "in 32 is in scale mode (lists of 85-4097 entries, parameter sets up to 65 535 bytes, 300 NAL units per array, payloads up to 70 000 "
-                 "bytes); 0-2 random sibling boxes follow the box. Checks: write_box returns box_size() = bytes written = header size field, header "
+                 "bytes); 0-2 random sibling boxes follow the box, and every case is decoded once more with 1-3 sibling boxes BEFORE it (reader positioned at the box). Checks: write_box returns box_size() = bytes written = header size field, header "
                  "fourcc is the type's own code; decoding (BoxHeader::read + read_box) yields an equal value and leaves the stream exactly at the box "
                  "end, from a stream that fills every read and from one that returns short reads (1 / 1-7 / 1-4096 bytes per call); reference and "
                  "64-bit-header encodings that the decoder accepts re-encode to a fixpoint; to_json/summary do not panic. distinct = (box type, shape); "
@@ -234,12 +234,12 @@ PROPS = {
         "miri_cases": 100,
         "min_evals": {"quick": 600000, "thorough": 2000000},
         "rule": ("seed corpus of ~50 valid files (the canned samples, reference-encoded movies of every codec/layout with metadata, edit lists, emsg, "
-                 "fragmented streams and init+segment pairs, muxer outputs); mutators: single substitution of a boundary-value set (0,1,...,2^W-1, n, "
+                 "fragmented streams (their field map covers the movie fragments; every fourth one has track fragments with two runs whose optional columns are complementary) and init+segment pairs, muxer outputs); mutators: single substitution of a boundary-value set (0,1,...,2^W-1, n, "
                  "remaining, box size, +-1/8/16, count that just fits) into every field of the reference encoder's field map (sizes, largesizes, fourccs, "
                  "versions, flags, counts, lengths, offsets, values; all of them in thorough; in quick a 4000-per-seed sample plus the extremes 0 / max-1 / max "
                  "of EVERY field), directed size+count pairs (every count field together with the sizes of its 1..3 innermost enclosing boxes raised to "
                  "~2^24 / 2^31 / 2^32), pairwise substitution of near-by fields, byte-level havoc (flips, runs, deletes, duplicates, splices of two seeds, "
-                 "truncation, fourcc swaps), directed size+offset pairs, 19 amplifier families, and 40 000 (thorough 200 000) freshly generated plain and fragmented movies, each as a "
+                 "truncation, fourcc swaps), directed size+offset pairs, 20 amplifier families (one of them, many fragments of one sample each without decode-time box, at 8 x the usual sizes), and 40 000 (thorough 200 000) freshly generated plain and fragmented movies, each as a "
                  "file, as media segment against its own initialisation segment, and with one havoc variant. Every input is opened (read_header, and read_fragment_header against three opened initialisation segments) and, when it "
                  "opens, every accessor is called: movie and track accessors, metadata, to_json/summary/box_size of every parsed box, sample_count, "
                  "sample_offset and read_sample for ids 0..16, count-1..count+2, 2^31, 2^32-1 and track ids 0 / present / max+1. A panic hook records "
@@ -261,10 +261,10 @@ PROPS = {
         "rule": ("the C06 corpus and mutators under an instrumented stream: per call (open, open-as-fragment, each sample read / accessor group) at "
                  "most 4000 + 16 n stream operations and 1 MiB + 16 n transferred bytes (n = input length; the stream returns an error when exceeded, "
                  "so a reader that loops without consuming input terminates with evidence) and at most 50 ms + 2 us x n thread CPU time, counted only "
-                 "if the minimum over three runs exceeds it; 19 amplifier families (many sample description boxes with a huge entry count, many containers with a tiny child, many tracks x many movie fragments, zero-size child in moov/trak/stbl/udta/moof, sub-header-size boxes "
+                 "if the minimum over three runs exceeds it; 20 amplifier families (many sample description boxes with a huge entry count, many containers with a tiny child, many tracks x many movie fragments, zero-size child in moov/trak/stbl/udta/moof, sub-header-size boxes "
                  "at top level and inside moov, many traks whose parameter-set lengths reach the end of the file, counts of 2^32-1 without payload, "
                  "runs declaring 2^32-1 samples without fields, nested overrun chains, many rewinding meta boxes, many emsg, many sample entries whose "
-                 "descriptor chain overruns into the following ones, many track fragments with long runs) are emitted at sizes n, 2n, 4n, 8n; between "
+                 "descriptor chain overruns into the following ones, many track fragments with long runs, many movie fragments of one sample each without a decode-time box - the last family at 8 x the sizes, because its hostile cost is CPU work of a later call only) are emitted at sizes n, 2n, 4n, 8n; between "
                  "consecutive sizes operations and bytes must not grow faster than 1.6 x the size ratio (one step suffices, the counters are deterministic) "
                  "and CPU time (minimum of two sweeps, above a 20 ms floor) must not do so on two consecutive steps (doubling test). Strata and "
                  "distinct_nontrivial as C06."),
@@ -318,7 +318,7 @@ PROPS = {
         "death_is_violation": True,
         "exhaustive": {"quick": True, "thorough": True},
         "min_evals": {"quick": 1200000, "thorough": 18000000},
-        "rule": ("for each explored reader subject (the valid seed corpus plus 800 / 16 000 generated plain and fragmented movies) a fault-free run counts the K stream calls "
+        "rule": ("for each explored reader subject (the valid seed corpus plus 800 / 16 000 generated plain and fragmented movies, one plain movie in eight with an item list in every form of C18 incl. the header-less meta box whose reader rewinds) a fault-free run counts the K stream calls "
                  "(read / seek) of the open call (read_header, or read_fragment_header for media segments) and of each read_sample call (first 6 samples "
                  "of every track); then the run is repeated once for EVERY k < K with a single injected error (its ErrorKind varies over eight kinds with the call and subject index) at call k. For each explored muxer history "
                  "(4000 quick / 60 000 thorough) the K write / seek calls from write_start to write_end are counted and every k < K is repeated with an "
@@ -350,7 +350,7 @@ PROPS = {
                  "per-track trak / trafs / moof offsets compared for equality; (d) the same media segment (corpus segments and 40 000 / 600 000 generated "
                  "fragmented movies) is opened through parents with different histories - init reader, a segment reader, a segment reader of a segment "
                  "reader, a segment reader that has been read from, a reader of a file with header and fragments - and structures and full transcripts "
-                 "must be equal; (e) fragmented movies with 2-3 tracks, every other one with a foreign track id in one tfhd, are opened eight times and all transcripts must be identical; one scheduled call in 25 meets a transient I/O error of the stream. distinct_nontrivial = distinct (previous call kind and outcome -> next call "
+                 "must be equal; (e) fragmented movies with 2-3 tracks, every other one with a foreign track id in one tfhd (one in eight: a DIFFERENT foreign id in every tfhd, counted in `subjects_with_several_distinct_foreign_track_ids`), are opened eight times and all transcripts must be identical; one scheduled call in 25 meets a transient I/O error of the stream. distinct_nontrivial = distinct (previous call kind and outcome -> next call "
                  "kind and outcome) transitions observed in the schedules plus distinct muxing history shapes."),
         "assumptions": [
             "the fresh-reader answer is the reference (metamorphic); correctness of the answer itself is C03/C09's business",
